@@ -100,6 +100,10 @@ FAMILIES = {
               ("Gen_Pause", "Gen_Pause.cfg", "sim", {"quick": dict(num=100, depth=10, consts={"GenSet": '"full"', "PauseSet": '"full"'}, seeds=1),
                                                    "thorough": dict(num=1000, depth=20, consts={"GenSet": '"full"', "PauseSet": '"full"'}, seeds=2)})],
         replays=[dict(mode="instrauth", controls="", swap=False)]),
+    "BIGSEQ": dict(
+        mc=("MC_FeesBig", "MC_FeesBig.cfg", {"quick": {"Ks": "{64}"}, "thorough": {"Ks": "{64, 255}"}}),
+        gens=[("Gen_BigSeq", "Gen_BigSeq.cfg", "bfs", {"quick": dict(depth=1, consts={}), "thorough": dict(depth=1, consts={})})],
+        replays=[dict(mode="app", controls="", swap=False)]),
     "DUST": dict(
         mc=("MC_Dust", "MC_Dust.cfg", {"quick": {"MaxDepth": "3"}, "thorough": {"MaxDepth": "4"}}),
         gens=[("Gen_Dust", "Gen_Dust.cfg", "bfs", {"quick": dict(depth=3, consts={}), "thorough": dict(depth=4, consts={})})],
@@ -127,7 +131,7 @@ PROPS = {
                 rule="FAULT: every (payload shape x armed fault set x clean/dusty state) is one execution with fault wrappers around the real dependencies; FUNDS: naturally occurring failures; non-trivial = a reception in which an armed fault actually fired or the transfer was refused; distinct = distinct (pre-state, input incl. fault set)"),
     "C06": dict(families=["ORDER"], groups=["ack", "actions", "req"], level="model_checking",
                 rule="non-trivial = a packet whose payload carries actions (executed with recording decorators around the fee controller and the swap test controller) or repeats an action id; distinct = distinct (pre-state, input)"),
-    "C14": dict(families=["PARSE", "FUNDS"], groups=["ack"], level="exploration",
+    "C14": dict(families=["PARSE", "FUNDS", "BIGSEQ"], groups=["ack"], level="exploration",
                 rule="TLC enumerates the finite grid templates x JSON paths x mutations completely; unstructured classes (random bytes as packet data, random memo bytes, random JSON under the real field names, extreme amounts/denoms/attribute values) are seeded-random representatives; each is one packet through the full app under recover(); non-trivial = every such packet; distinct = distinct abstract input"),
     "C20": dict(families=["IDENT"], groups=["ident"], level="model_checking", exhaustive=True,
                 rule="one evaluation = one (protocol, counterparty string) pair sent through every identifier entry point; the evidence counts steps (batches of all strings per protocol and pre-state); non-trivial = every batch; distinct = distinct (pre-state, protocol)"),
@@ -143,7 +147,7 @@ PROPS = {
                 rule="one evaluation = one complete query walk (all pages) or one direct lookup against the ledger observed in the same step; non-trivial = every query step; distinct = distinct (ledger, query)"),
     "C19": dict(families=["DET"], groups=[], level="exploration",
                 rule="the same generated histories (random FUNDS and PAUSE histories, the parse-mutation grid, the request grid, the genesis-document grid, the pass-through grid) replayed in R independent OS processes (R=2 quick, 4 thorough; different GOMAXPROCS/GC settings, Go randomises map iteration per process); per step a digest of acknowledgement bytes, ordered events, exported orbiter state, full bank export and all-store hash; non-trivial = a step with peer digests; distinct = distinct (pre-state, input); error-branch coverage of the specification by the replayed steps is reported"),
-    "C04": dict(families=["FEES", "FEESBIG"], groups=["ack", "bal"], level="model_checking", exhaustive=True,
+    "C04": dict(families=["FEES", "FEESBIG", "BIGSEQ"], groups=["ack", "bal"], level="model_checking", exhaustive=True,
                 rule="every grid point (amount x fee-entry list) is one packet through the real application; non-trivial = the payload carries a fee action that parses; distinct = distinct abstract input"),
     "C05": dict(families=["REQ"], groups=["ack", "req"], level="model_checking", exhaustive=True,
                 rule="every grid point (protocol id x attribute type x attribute values x pre-action) is one packet, executed once with recording wrappers around the real bridge servers and once through the simapp wiring; non-trivial = a successful transfer (request compared) or a mismatched/unrouted payload (must be refused); distinct = distinct abstract input x wiring"),
